@@ -67,10 +67,33 @@ pub enum IceOpt {
     /// `enable_ice_lite` on endpoint A only ("ice-lite on one side"); with `offerer` this gives
     /// lite-on-offerer and lite-on-answerer.
     LiteA,
-    /// `ice_tcp_policy = Enabled` on both sides
-    Tcp,
     /// `ice_udp_mux = true` on both sides, each endpoint with its own `ice_udp_mux_port`
     UdpMux,
+}
+
+/// Which ICE transports one endpoint gathers (per side: `tr_off` for the offerer, `tr_ans` for the answerer).
+#[derive(Clone, Copy, Debug, PartialEq, Eq, PartialOrd, Ord, Serialize, Deserialize, Default)]
+pub enum Tr {
+    /// UDP host candidates only (`ice_tcp_policy = Disabled`, the default)
+    #[default]
+    Udp,
+    /// UDP hosts and passive TCP listeners (`ice_tcp_policy = Enabled`)
+    UdpTcp,
+    /// no UDP hosts, passive TCP listener in a configured port range
+    /// (`ice_gather_udp_hosts = false`, `ice_tcp_policy = Enabled`, `tcp_port_range_*`)
+    TcpPassive,
+    /// no UDP hosts, no listen range: active TCP candidates only
+    /// (`ice_gather_udp_hosts = false`, `ice_tcp_policy = Enabled`)
+    TcpActive,
+}
+
+impl Tr {
+    fn has_udp(self) -> bool {
+        matches!(self, Tr::Udp | Tr::UdpTcp)
+    }
+    fn has_tcp(self) -> bool {
+        !matches!(self, Tr::Udp)
+    }
 }
 
 #[derive(Clone, Copy, Debug, PartialEq, Eq, PartialOrd, Ord, Serialize, Deserialize)]
@@ -108,6 +131,10 @@ pub struct Point {
     pub bundle: Bundle,
     pub mux: Mux,
     pub ice: IceOpt,
+    #[serde(default)]
+    pub tr_off: Tr,
+    #[serde(default)]
+    pub tr_ans: Tr,
     pub latch: Latch,
     pub compat: Compat,
     pub offerer: Side,
@@ -117,7 +144,8 @@ const MODES: [Mode; 3] = [Mode::WebRtc, Mode::Srtp, Mode::Rtp];
 const MEDIAS: [Media; 5] = [Media::Audio, Media::AudioVideo, Media::Dc, Media::DcAudio, Media::DcAudioVideo];
 const BUNDLES: [Bundle; 2] = [Bundle::NotOffered, Bundle::Offered];
 const MUXES: [Mux; 2] = [Mux::Require, Mux::Negotiate];
-const ICES: [IceOpt; 4] = [IceOpt::Plain, IceOpt::LiteA, IceOpt::Tcp, IceOpt::UdpMux];
+const ICES: [IceOpt; 3] = [IceOpt::Plain, IceOpt::LiteA, IceOpt::UdpMux];
+const TRS: [Tr; 4] = [Tr::Udp, Tr::UdpTcp, Tr::TcpPassive, Tr::TcpActive];
 const LATCHES: [Latch; 3] = [Latch::Off, Latch::On0, Latch::On3];
 const COMPATS: [Compat; 2] = [Compat::Standard, Compat::LegacySip];
 const SIDES: [Side; 2] = [Side::A, Side::B];
@@ -144,6 +172,8 @@ impl Point {
         bundle: Bundle::NotOffered,
         mux: Mux::Require,
         ice: IceOpt::Plain,
+        tr_off: Tr::Udp,
+        tr_ans: Tr::Udp,
         latch: Latch::Off,
         compat: Compat::Standard,
         offerer: Side::A,
@@ -182,6 +212,9 @@ impl Point {
                 return Some("ICE options only where ICE runs (Rtp mode: no gathering, no STUN; only ICE-lite is supported there)");
             }
         }
+        if let Some(c) = self.tr_constraint() {
+            return Some(c);
+        }
         // (3) Latching only in Rtp mode.
         //   README.md:137                 "`enable_latching` — Enable dynamic remote address detection for RTP-only mode."
         //   src/peer_connection.rs:2086   `if self.config().transport_mode == TransportMode::Rtp && self.config().enable_latching {`
@@ -204,6 +237,34 @@ impl Point {
         None
     }
 
+    fn tr_constraint(&self) -> Option<&'static str> {
+        // (2b) Per-side ICE transports {UDP, UDP+TCP, TCP only} are ICE candidate gathering options: only where ICE gathers
+        //      and checks candidates (same quotations as (2)), i.e. WebRtc mode.
+        if (self.tr_off != Tr::Udp || self.tr_ans != Tr::Udp) && self.mode != Mode::WebRtc {
+            return Some("ICE-TCP / host gathering options only where ICE runs (WebRtc mode)");
+        }
+        // (2c) "compatibly configured": the two ends must share at least one transport protocol.
+        if !((self.tr_off.has_udp() && self.tr_ans.has_udp()) || (self.tr_off.has_tcp() && self.tr_ans.has_tcp())) {
+            return Some("not compatibly configured: the endpoints share no ICE transport protocol");
+        }
+        // (2c') An endpoint that gathers only *active* TCP candidates (no UDP hosts, no listen range) is the offerer:
+        //   src/transports/ice/mod.rs:3674 "Outbound controlling peers with no TCP listen range advertise active locals.
+        //                                   WHEP/answerer setups configure tcp_port_range_* for passive listeners"
+        //   src/transports/ice/mod.rs:3930 "Advertise ICE-TCP active host candidates for controlling clients (no UDP gather)."
+        //   (active/active also shares no usable pair: RFC 6544 pairs active only with passive)
+        if self.tr_ans == Tr::TcpActive {
+            return Some("active-only TCP candidates are for the controlling (offering) side; answerers configure a listen range");
+        }
+        // (2d) The shared mux socket is a UDP host candidate: it is only gathered where UDP hosts are gathered.
+        //   src/transports/ice/mod.rs:3669 `if self.config.ice_gather_udp_hosts { ... self.gather_host_candidates() ...`
+        //   src/transports/ice/mod.rs:3839 (inside gather_host_candidates) `if self.config.ice_udp_mux && let Err(e) =
+        //                                   self.gather_shared_udp_host_candidate().await`
+        if self.ice == IceOpt::UdpMux && !(self.tr_off.has_udp() && self.tr_ans.has_udp()) {
+            return Some("udp-mux is a UDP host candidate: needs UDP host gathering on that side");
+        }
+        None
+    }
+
     fn derived_bundle(media: Media, compat: Compat) -> Bundle {
         if compat == Compat::Standard && media.sections() > 1 {
             Bundle::Offered
@@ -216,13 +277,15 @@ impl Point {
         self.violated_constraint().is_none()
     }
 
-    fn coords(&self) -> [usize; 8] {
+    fn coords(&self) -> [usize; 10] {
         [
             self.mode as usize,
             self.media as usize,
             self.bundle as usize,
             self.mux as usize,
             self.ice as usize,
+            self.tr_off as usize,
+            self.tr_ans as usize,
             self.latch as usize,
             self.compat as usize,
             self.offerer as usize,
@@ -236,8 +299,8 @@ impl Point {
 
     fn tag(&self) -> String {
         format!(
-            "mode={:?},media={:?},bundle={:?},mux={:?},ice={:?},latch={:?},compat={:?},offerer={:?}",
-            self.mode, self.media, self.bundle, self.mux, self.ice, self.latch, self.compat, self.offerer
+            "mode={:?},media={:?},bundle={:?},mux={:?},ice={:?},tr={:?}/{:?},latch={:?},compat={:?},offerer={:?}",
+            self.mode, self.media, self.bundle, self.mux, self.ice, self.tr_off, self.tr_ans, self.latch, self.compat, self.offerer
         )
     }
 }
@@ -250,12 +313,16 @@ pub fn all_points() -> Vec<Point> {
             for bundle in BUNDLES {
                 for mux in MUXES {
                     for ice in ICES {
-                        for latch in LATCHES {
-                            for compat in COMPATS {
-                                for offerer in SIDES {
-                                    let p = Point { mode, media, bundle, mux, ice, latch, compat, offerer };
-                                    if p.valid() {
-                                        v.push(p);
+                        for tr_off in TRS {
+                            for tr_ans in TRS {
+                                for latch in LATCHES {
+                                    for compat in COMPATS {
+                                        for offerer in SIDES {
+                                            let p = Point { mode, media, bundle, mux, ice, tr_off, tr_ans, latch, compat, offerer };
+                                            if p.valid() {
+                                                v.push(p);
+                                            }
+                                        }
                                     }
                                 }
                             }
@@ -273,7 +340,10 @@ pub fn all_points() -> Vec<Point> {
 pub fn pairwise(all: &[Point], keys: &[u32]) -> Vec<Point> {
     let mut uncovered: BTreeSet<(usize, usize, usize, usize)> = BTreeSet::new();
     let pairs_of = |p: &Point| {
-        let c = p.coords();
+        // the per-side transports enter as one compound coordinate, so that every (tr_off, tr_ans) combination is
+        // crossed with every value of every other coordinate
+        let c0 = p.coords();
+        let c = [c0[0], c0[1], c0[2], c0[3], c0[4], c0[5] * 4 + c0[6], c0[7], c0[8], c0[9]];
         let mut out = Vec::with_capacity(28);
         for i in 0..c.len() {
             for j in (i + 1)..c.len() {
@@ -308,11 +378,28 @@ pub fn pairwise(all: &[Point], keys: &[u32]) -> Vec<Point> {
     chosen
 }
 
+/// The per-side transport pairs the constraints allow for a mode and ICE option.
+fn tr_pairs(mode: Mode, ice: IceOpt) -> Vec<(Tr, Tr)> {
+    let mut v = Vec::new();
+    for a in TRS {
+        for b in TRS {
+            let p = Point { mode, ice, tr_off: a, tr_ans: b, media: Media::Audio, latch: Latch::Off, ..Point::DEFAULT };
+            let ok_mode = mode == Mode::WebRtc || (a == Tr::Udp && b == Tr::Udp);
+            if ok_mode && p.tr_constraint().is_none() {
+                v.push((a, b));
+            }
+        }
+    }
+    v
+}
+
 /// Random valid point, built by construction: mode first, then only the values the mode allows.
 fn random_point() -> impl Strategy<Value = Point> {
-    (any::<[u16; 7]>()).prop_map(|r| {
+    (any::<[u16; 8]>()).prop_map(|r| {
         let pick = |x: u16, n: usize| crate::engine::pick(x, n);
-        let mode = MODES[pick(r[0], 3)];
+        // WebRtc carries 880 of the 992 points (and all transport combinations): weight it accordingly
+        const MODE_W: [Mode; 10] = [Mode::WebRtc, Mode::WebRtc, Mode::WebRtc, Mode::WebRtc, Mode::WebRtc, Mode::WebRtc, Mode::WebRtc, Mode::Srtp, Mode::Rtp, Mode::Rtp];
+        let mode = MODE_W[pick(r[0], 10)];
         let medias: &[Media] = if mode == Mode::WebRtc { &MEDIAS } else { &[Media::Audio, Media::AudioVideo] };
         let media = medias[pick(r[1], medias.len())];
         let ices: &[IceOpt] = match mode {
@@ -323,12 +410,16 @@ fn random_point() -> impl Strategy<Value = Point> {
         let ice = ices[pick(r[2], ices.len())];
         let latch = if mode == Mode::Rtp { LATCHES[pick(r[3], 3)] } else { Latch::Off };
         let compat = COMPATS[pick(r[4], 2)];
+        let trs = tr_pairs(mode, ice);
+        let (tr_off, tr_ans) = trs[pick(r[7], trs.len())];
         let p = Point {
             mode,
             media,
             bundle: Point::derived_bundle(media, compat),
             mux: MUXES[pick(r[5], 2)],
             ice,
+            tr_off,
+            tr_ans,
             latch,
             compat,
             offerer: SIDES[pick(r[6], 2)],
@@ -392,14 +483,22 @@ impl PointTree {
             4 => q.compat = Point::DEFAULT.compat,
             5 => q.media = if p.media.has_dc() && p.media != Media::Dc { Media::Dc } else { Point::DEFAULT.media },
             6 => q.media = if p.media.has_video() { if p.media.has_dc() { Media::DcAudio } else { Media::Audio } } else { p.media },
-            7 => q.mode = Point::DEFAULT.mode,
+            7 => q.tr_ans = Tr::Udp,
+            8 => q.tr_off = Tr::Udp,
+            9 => {
+                q.tr_off = Tr::Udp;
+                q.tr_ans = Tr::Udp;
+            }
+            10 => q.tr_ans = if p.tr_ans.has_udp() { p.tr_ans } else { Tr::UdpTcp },
+            11 => q.tr_off = if p.tr_off.has_udp() { p.tr_off } else { Tr::UdpTcp },
+            12 => q.mode = Point::DEFAULT.mode,
             _ => return None,
         }
         q.bundle = Point::derived_bundle(q.media, q.compat);
         (q != *p && q.valid()).then_some(q)
     }
     fn advance(&mut self) -> bool {
-        while self.next_coord < 8 {
+        while self.next_coord < 13 {
             let c = self.next_coord;
             self.next_coord += 1;
             if let Some(q) = Self::reset(&self.cur, c) {
@@ -443,28 +542,49 @@ const STEP_TIMEOUT: Duration = Duration::from_secs(8);
 /// nomination_timeout 10 s, ice_connection_timeout 120 s (defaults, left untouched). Loopback connects in
 /// tens of milliseconds; 12 s is the harness bound for "within the configured timeouts".
 const CONNECT_TIMEOUT: Duration = Duration::from_secs(12);
-const EXCHANGE_TIMEOUT: Duration = Duration::from_secs(4);
-const RTP_INTERVAL: Duration = Duration::from_millis(20);
+/// hard bound for one RTP flow (burst + tail take ~0.2 s)
+const EXCHANGE_TIMEOUT: Duration = Duration::from_secs(8);
 /// SCTP recovers a lost INIT / DCEP message only after sctp_rto_initial (3 s by default, doubling), so the
 /// data-channel clauses get a bound that covers several retransmissions.
-const DC_TIMEOUT: Duration = Duration::from_secs(25);
+const DC_TIMEOUT: Duration = Duration::from_secs(12);
 
 static NEXT_PORT: AtomicU32 = AtomicU32::new(0);
 
-/// A free UDP port on 127.0.0.1 for `ice_udp_mux_port` (a resource, not a decision). Taken from below the
-/// ephemeral range (32768..) so that no other socket of a concurrently running point can grab it between the
-/// probe and rustrtc's bind.
-fn alloc_port() -> u16 {
+/// `n` consecutive ports on 127.0.0.1, free for UDP and TCP (a resource, not a decision), for `ice_udp_mux_port` and
+/// `tcp_port_range_*`. Taken from below the ephemeral range (32768..) so that no other socket of a concurrently
+/// running point can grab them between the probe and rustrtc's bind.
+fn alloc_ports(n: u16) -> u16 {
     loop {
-        let n = NEXT_PORT.fetch_add(1, Ordering::SeqCst);
-        let port = (10000 + ((std::process::id() % 97) * 211 + n) % 20000) as u16;
-        if std::net::UdpSocket::bind(("127.0.0.1", port)).is_ok() {
+        let k = NEXT_PORT.fetch_add(n as u32, Ordering::SeqCst);
+        let port = (10000 + ((std::process::id() % 97) * 211 + k) % 20000) as u16;
+        let free = (0..n).all(|i| {
+            std::net::UdpSocket::bind(("127.0.0.1", port + i)).is_ok()
+                && std::net::TcpListener::bind(("127.0.0.1", port + i)).is_ok()
+        });
+        if free {
             return port;
         }
     }
 }
 
-fn config_for(p: &Point, side: Side, mux_port: Option<u16>) -> RtcConfiguration {
+#[derive(Clone, Copy, Default)]
+struct Ports {
+    mux: Option<u16>,
+    tcp_range: Option<(u16, u16)>,
+}
+
+fn ports_for(p: &Point, side: Side) -> Ports {
+    let tr = if side == p.offerer { p.tr_off } else { p.tr_ans };
+    Ports {
+        mux: (p.ice == IceOpt::UdpMux).then(|| alloc_ports(1)),
+        tcp_range: (tr == Tr::TcpPassive).then(|| {
+            let base = alloc_ports(3);
+            (base, base + 2)
+        }),
+    }
+}
+
+fn config_for(p: &Point, side: Side, ports: Ports) -> RtcConfiguration {
     let mut c = RtcConfiguration::default();
     c.transport_mode = match p.mode {
         Mode::WebRtc => TransportMode::WebRtc,
@@ -483,10 +603,26 @@ fn config_for(p: &Point, side: Side, mux_port: Option<u16>) -> RtcConfiguration 
     match p.ice {
         IceOpt::Plain => {}
         IceOpt::LiteA => c.enable_ice_lite = side == Side::A,
-        IceOpt::Tcp => c.ice_tcp_policy = rustrtc::config::IceTcpPolicy::Enabled,
         IceOpt::UdpMux => {
             c.ice_udp_mux = true;
-            c.ice_udp_mux_port = mux_port;
+            c.ice_udp_mux_port = ports.mux;
+        }
+    }
+    let tr = if side == p.offerer { p.tr_off } else { p.tr_ans };
+    match tr {
+        Tr::Udp => {}
+        Tr::UdpTcp => c.ice_tcp_policy = rustrtc::config::IceTcpPolicy::Enabled,
+        Tr::TcpPassive => {
+            c.ice_gather_udp_hosts = false;
+            c.ice_tcp_policy = rustrtc::config::IceTcpPolicy::Enabled;
+            if let Some((s, e)) = ports.tcp_range {
+                c.tcp_port_range_start = Some(s);
+                c.tcp_port_range_end = Some(e);
+            }
+        }
+        Tr::TcpActive => {
+            c.ice_gather_udp_hosts = false;
+            c.ice_tcp_policy = rustrtc::config::IceTcpPolicy::Enabled;
         }
     }
     match p.latch {
@@ -500,6 +636,8 @@ fn config_for(p: &Point, side: Side, mux_port: Option<u16>) -> RtcConfiguration 
             c.probation_max_packets = Some(3);
         }
     }
+    // the whole burst fits the per-SSRC receive buffer, so a slow reader task cannot make the receiver drop packets
+    c.rtp_buffer_capacity = 1024;
     c.label = Some(format!("c10-{:?}", side));
     c
 }
@@ -526,18 +664,18 @@ fn video_params() -> RtpCodecParameters {
     RtpCodecParameters { payload_type: 96, name: "VP8".into(), clock_rate: 90000, channels: 0 }
 }
 
-fn build_end(p: &Point, side: Side, mux_port: Option<u16>) -> Result<End, Fail> {
-    let pc = PeerConnection::new(config_for(p, side, mux_port));
+fn build_end(p: &Point, side: Side) -> Result<End, Fail> {
+    let pc = PeerConnection::new(config_for(p, side, ports_for(p, side)));
     let mut end = End { pc, audio: None, video: None };
     if p.media.has_audio() {
-        let (src, track, _fb) = sample_track(FrameKind::Audio, 64);
+        let (src, track, _fb) = sample_track(FrameKind::Audio, (RTP_TOTAL + 32) as usize);
         end.pc
             .add_track(track.clone(), audio_params())
             .map_err(|e| Fail::new("setup:add-track-error", format!("{side:?} add_track(audio): {e}")))?;
         end.audio = Some((Arc::new(src), track));
     }
     if p.media.has_video() {
-        let (src, track, _fb) = sample_track(FrameKind::Video, 64);
+        let (src, track, _fb) = sample_track(FrameKind::Video, (RTP_TOTAL + 32) as usize);
         end.pc
             .add_track(track.clone(), video_params())
             .map_err(|e| Fail::new("setup:add-track-error", format!("{side:?} add_track(video): {e}")))?;
@@ -567,12 +705,34 @@ fn has_bundle(d: &SessionDescription) -> bool {
         .any(|a| a.key == "group" && a.value.as_deref().is_some_and(|v| v.starts_with("BUNDLE")))
 }
 
+/// Unpaced packets per RTP burst, followed by `TAIL` paced packets (a burst may legitimately overflow a UDP socket
+/// buffer and lose its end; the paced tail shows whether the direction is still alive afterwards).
+const BURST: u32 = 300;
+const TAIL: u32 = 6;
+const TAIL_INTERVAL: Duration = Duration::from_millis(15);
+const TAIL_GAP: Duration = Duration::from_millis(150);
+const RTP_TOTAL: u32 = BURST + TAIL;
+/// how long a reader keeps listening after the senders finished before the flow is judged
+const RTP_GRACE: Duration = Duration::from_millis(1500);
+/// data-channel message sizes per direction: below and above one SCTP DATA chunk (1200), above the MTU (several
+/// DTLS records per message), tiny ones in between
+const DC_SIZES: [usize; 16] = [1, 17, 300, 1200, 1201, 3000, 40, 9000, 64, 16000, 5, 2500, 1199, 700, 12000, 33];
+
+fn point_digest(p: &Point) -> u64 {
+    let mut h: u64 = 0xcbf29ce484222325;
+    for b in p.tag().bytes() {
+        h ^= b as u64;
+        h = h.wrapping_mul(0x100000001b3);
+    }
+    h
+}
+
+/// RTP payload number `i` of a flow: 96 bytes, the flow identity and the index in clear, then keyed filler.
 fn payload(p: &Point, from: Side, kind: &str, i: u32) -> Bytes {
-    let head = format!("C10|{}|from={:?}|{}|#{:05}|", p.tag(), from, kind, i);
-    let len = if kind == "video" { 900 } else { 200 };
+    let head = format!("C10|{:016x}|{:?}|{}|#{:05}|", point_digest(p), from, &kind[..1], i);
     let mut v = head.into_bytes();
-    let mut x = (i as u8).wrapping_mul(31).wrapping_add(from as u8);
-    while v.len() < len {
+    let mut x = (i as u8).wrapping_mul(31).wrapping_add(from as u8).wrapping_add(kind.len() as u8);
+    while v.len() < 96 {
         x = x.wrapping_mul(17).wrapping_add(43);
         v.push(x);
     }
@@ -586,152 +746,211 @@ fn sample_data(s: &MediaSample) -> &Bytes {
     }
 }
 
-#[derive(Default)]
-struct FlowObs {
-    first_index: Option<u32>,
-}
-
-/// Send a packet every 20 ms on `src` until the peer's receiver `track` yielded one; the received payload must be
-/// byte-equal to the payload the sender produced for the index it carries.
-async fn rtp_flow(
-    p: Point,
-    from: Side,
-    kind: &'static str,
-    src: Arc<SampleStreamSource>,
-    recv_track: Arc<SampleStreamTrack>,
-) -> Result<FlowObs, Fail> {
-    let done = Arc::new(tokio::sync::Notify::new());
-    let done2 = done.clone();
-    let sender = tokio::spawn(async move {
-        let mut i = 0u32;
-        loop {
-            let data = payload(&p, from, kind, i);
-            let sample = if kind == "video" {
-                MediaSample::Video(VideoFrame {
-                    rtp_timestamp: i.wrapping_mul(3000),
-                    data,
-                    is_last_packet: true,
-                    ..Default::default()
-                })
-            } else {
-                MediaSample::Audio(AudioFrame {
-                    rtp_timestamp: i.wrapping_mul(960),
-                    clock_rate: 48000,
-                    data,
-                    ..Default::default()
-                })
-            };
-            if src.send(sample).is_err() {
-                break;
-            }
-            i += 1;
-            tokio::select! {
-                _ = done2.notified() => break,
-                _ = tokio::time::sleep(RTP_INTERVAL) => {}
-            }
-        }
-        i
-    });
-    let got = tokio::time::timeout(EXCHANGE_TIMEOUT, recv_track.recv()).await;
-    done.notify_one();
-    let sent = sender.await.unwrap_or(0);
-    let dir = format!("{:?}->{:?}", from, from.other());
-    match got {
-        Err(_) => Err(Fail::timing(
-            format!("rtp-not-received:{kind}"),
-            format!("{kind} RTP {dir}: no packet reached the receiver track within {EXCHANGE_TIMEOUT:?} ({sent} sent)"),
-        )),
-        Ok(Err(e)) => Err(Fail::new(
-            format!("rtp-track-ended:{kind}"),
-            format!("{kind} RTP {dir}: receiver track ended: {e:?}"),
-        )),
-        Ok(Ok(sample)) => {
-            let data = sample_data(&sample).clone();
-            let text = String::from_utf8_lossy(&data[..data.len().min(220)]).to_string();
-            let want_kind = if kind == "video" { FrameKind::Video } else { FrameKind::Audio };
-            if sample.kind() != want_kind {
-                return Err(Fail::new(
-                    format!("rtp-wrong-kind:{kind}"),
-                    format!("{kind} RTP {dir}: receiver track of kind {kind} yielded a {:?} sample: {text}", sample.kind()),
-                ));
-            }
-            // index carried in the payload
-            let idx = text
-                .split("|#")
-                .nth(1)
-                .and_then(|s| s.get(..5))
-                .and_then(|s| s.parse::<u32>().ok());
-            let Some(idx) = idx else {
-                return Err(Fail::new(
-                    format!("rtp-payload-corrupt:{kind}"),
-                    format!("{kind} RTP {dir}: received payload is not one the peer sent: {text:?} ({} bytes)", data.len()),
-                ));
-            };
-            let expect = payload(&p, from, kind, idx);
-            if data != expect {
-                // cross-delivery (other section / other direction) or corruption
-                let other_kind = if kind == "video" { "audio" } else { "video" };
-                let sig = if data == payload(&p, from, other_kind, idx) {
-                    format!("rtp-cross-delivered:{kind}")
-                } else if data == payload(&p, from.other(), kind, idx) {
-                    format!("rtp-looped-back:{kind}")
-                } else {
-                    format!("rtp-payload-corrupt:{kind}")
-                };
-                return Err(Fail::new(
-                    sig,
-                    format!("{kind} RTP {dir}: received payload differs from the one sent with index {idx}: {text:?} ({} bytes, expected {})", data.len(), expect.len()),
-                ));
-            }
-            Ok(FlowObs { first_index: Some(idx) })
-        }
-    }
-}
-
-fn dc_message(p: &Point, from: Side) -> Vec<u8> {
-    let mut v = format!("C10-dc|{}|from={:?}|", p.tag(), from).into_bytes();
-    let mut x = 7u8 + from as u8;
-    while v.len() < 300 {
+fn dc_message(p: &Point, from: Side, i: usize) -> Vec<u8> {
+    let size = DC_SIZES[i];
+    let mut v = format!("C10dc|{:016x}|{:?}|#{:02}|", point_digest(p), from, i).into_bytes();
+    let mut x = (i as u8).wrapping_mul(29).wrapping_add(7 + from as u8);
+    while v.len() < size {
         x = x.wrapping_mul(13).wrapping_add(101);
         v.push(x);
+    }
+    if v.len() > size {
+        // too short for the header: keyed bytes only
+        v = (0..size).map(|k| (k as u8).wrapping_mul(37).wrapping_add(x)).collect();
     }
     v
 }
 
-async fn dc_wait_message(dc: &DataChannel, who: &str) -> Result<Bytes, Fail> {
-    let deadline = tokio::time::Instant::now() + DC_TIMEOUT;
+/// Push the whole burst without pacing, then the paced tail.
+async fn rtp_send(p: Point, from: Side, kind: &'static str, src: Arc<SampleStreamSource>) -> Result<(), Fail> {
+    for i in 0..RTP_TOTAL {
+        let data = payload(&p, from, kind, i);
+        let sample = if kind == "video" {
+            MediaSample::Video(VideoFrame { rtp_timestamp: i.wrapping_mul(3000), data, is_last_packet: true, ..Default::default() })
+        } else {
+            MediaSample::Audio(AudioFrame { rtp_timestamp: i.wrapping_mul(960), clock_rate: 48000, data, ..Default::default() })
+        };
+        src.send(sample).map_err(|e| Fail::new(format!("rtp-source-rejected:{kind}"), format!("{kind} {from:?}: sample source refused packet {i}: {e:?}")))?;
+        if i >= BURST {
+            tokio::time::sleep(TAIL_INTERVAL).await;
+        } else if i == BURST - 1 {
+            // let the receiver work off the burst before the paced packets start
+            tokio::time::sleep(TAIL_GAP).await;
+        } else if i % 64 == 63 {
+            // let the sender task drain the sample queue (it holds the whole burst, nothing is dropped here)
+            tokio::task::yield_now().await;
+        }
+    }
+    Ok(())
+}
+
+#[derive(Default, Debug)]
+struct FlowObs {
+    distinct: u32,
+    duplicates: u32,
+    tail_seen: u32,
+    last_seen: bool,
+    highest: Option<u32>,
+    out_of_order: u32,
+}
+
+/// Read the peer's receiver track until the flow is complete, or the last packet arrived (UDP), or the senders have
+/// been done for `RTP_GRACE`. Every sample must be bit-identical to the packet sent with the index it carries.
+async fn rtp_read(
+    p: Point,
+    from: Side,
+    kind: &'static str,
+    track: Arc<SampleStreamTrack>,
+    path_tcp: bool,
+    mut senders_done: tokio::sync::watch::Receiver<bool>,
+) -> Result<FlowObs, Fail> {
+    let dir = format!("{:?}->{:?}", from, from.other());
+    let mut seen = vec![false; RTP_TOTAL as usize];
+    let mut obs = FlowObs::default();
+    let mut grace_until: Option<tokio::time::Instant> = None;
+    let hard = tokio::time::Instant::now() + EXCHANGE_TIMEOUT;
     loop {
-        match tokio::time::timeout_at(deadline, dc.recv()).await {
-            Err(_) => {
-                return Err(Fail::timing(
-                    "dc-message-not-received",
-                    format!("{who}: no data-channel message within {DC_TIMEOUT:?}"),
-                ));
+        if obs.distinct == RTP_TOTAL || obs.last_seen {
+            break;
+        }
+        let deadline = grace_until.unwrap_or(hard).min(hard);
+        let sample = tokio::select! {
+            r = tokio::time::timeout_at(deadline, track.recv()) => match r {
+                Err(_) => break,
+                Ok(Err(e)) => {
+                    return Err(Fail::new(format!("rtp-track-ended:{kind}"), format!("{kind} RTP {dir}: receiver track ended: {e:?}")));
+                }
+                Ok(Ok(s)) => s,
+            },
+            _ = senders_done.changed(), if grace_until.is_none() => {
+                grace_until = Some(tokio::time::Instant::now() + RTP_GRACE);
+                continue;
             }
-            Ok(None) => return Err(Fail::new("dc-closed", format!("{who}: data channel event stream ended"))),
-            Ok(Some(DataChannelEvent::Message(b))) => return Ok(b),
-            Ok(Some(DataChannelEvent::Open)) => continue,
-            Ok(Some(DataChannelEvent::Close)) => {
-                return Err(Fail::new("dc-closed", format!("{who}: data channel closed before the message arrived")));
+        };
+        let data = sample_data(&sample).clone();
+        let text = String::from_utf8_lossy(&data[..data.len().min(48)]).to_string();
+        let want_kind = if kind == "video" { FrameKind::Video } else { FrameKind::Audio };
+        if sample.kind() != want_kind {
+            return Err(Fail::new(format!("rtp-wrong-kind:{kind}"), format!("{kind} RTP {dir}: receiver track yielded a {:?} sample: {text}", sample.kind())));
+        }
+        let idx = text.split("|#").nth(1).and_then(|s| s.get(..5)).and_then(|s| s.parse::<u32>().ok()).filter(|i| *i < RTP_TOTAL);
+        let Some(idx) = idx else {
+            return Err(Fail::new(
+                format!("rtp-payload-corrupt:{kind}"),
+                format!("{kind} RTP {dir}: received payload is not one the peer sent: {text:?} ({} bytes) after {} good packets", data.len(), obs.distinct),
+            ));
+        };
+        if data != payload(&p, from, kind, idx) {
+            let other_kind = if kind == "video" { "audio" } else { "video" };
+            let sig = if data == payload(&p, from, other_kind, idx) {
+                format!("rtp-cross-delivered:{kind}")
+            } else if data == payload(&p, from.other(), kind, idx) {
+                format!("rtp-looped-back:{kind}")
+            } else {
+                format!("rtp-payload-corrupt:{kind}")
+            };
+            return Err(Fail::new(sig, format!("{kind} RTP {dir}: received payload differs from the one sent with index {idx}: {text:?} ({} bytes) after {} good packets", data.len(), obs.distinct)));
+        }
+        if seen[idx as usize] {
+            obs.duplicates += 1;
+        } else {
+            seen[idx as usize] = true;
+            obs.distinct += 1;
+            if idx >= BURST {
+                obs.tail_seen += 1;
+            }
+            if idx == RTP_TOTAL - 1 {
+                obs.last_seen = true;
+            }
+            match obs.highest {
+                Some(h) if idx < h => obs.out_of_order += 1,
+                _ => obs.highest = Some(idx),
             }
         }
     }
+    // judgement
+    if obs.distinct == 0 {
+        return Err(Fail::stall(
+            format!("rtp-not-received:{kind}"),
+            format!("{kind} RTP {dir}: none of the {RTP_TOTAL} packets reached the receiver track"),
+        ));
+    }
+    if obs.tail_seen == 0 {
+        return Err(Fail::stall(
+            format!("rtp-direction-died:{kind}"),
+            format!("{kind} RTP {dir}: {} of {BURST} burst packets arrived (highest index {:?}) and then nothing: none of the {TAIL} paced packets sent after the burst", obs.distinct, obs.highest),
+        ));
+    }
+    // The unpaced burst may overrun the receiver's own bounded queue whatever the transport (peer_connection.rs:236
+    // `RTP_RECEIVER_PACKET_CAPACITY: usize = 64`, transports/rtp.rs:1168 `try_send_dropping` - `Full(_) => {}`), so burst
+    // completeness is not demanded even on TCP. The paced tail cannot overrun anything: on a TCP-selected pair (a
+    // reliable byte stream) every tail packet must arrive.
+    if path_tcp && obs.tail_seen < TAIL {
+        let missing: Vec<usize> = seen.iter().enumerate().skip(BURST as usize).filter(|(_, s)| !**s).map(|(i, _)| i).collect();
+        return Err(Fail::stall(
+            format!("rtp-tail-lost-on-tcp:{kind}"),
+            format!("{kind} RTP {dir}: the selected pair is TCP, yet only {} of the {TAIL} paced packets after the burst arrived (missing {:?}; {} of {RTP_TOTAL} overall)", obs.tail_seen, missing, obs.distinct),
+        ));
+    }
+    Ok(obs)
 }
 
-async fn dc_exchange(p: Point, offerer: PeerConnection, answerer: PeerConnection, dc_off: Arc<DataChannel>) -> Check {
-    // the answerer learns the channel in-band (DCEP)
+async fn dc_send_all(p: Point, from: Side, pc: PeerConnection, id: u16) -> Result<(), Fail> {
+    for i in 0..DC_SIZES.len() {
+        let m = dc_message(&p, from, i);
+        match tokio::time::timeout(DC_TIMEOUT, pc.send_data(id, &m)).await {
+            Ok(Ok(())) => {}
+            Ok(Err(e)) => return Err(Fail::new("dc-send-error", format!("{from:?} send_data of message {i} ({} bytes): {e}", m.len()))),
+            Err(_) => return Err(Fail::stall("dc-send-stalled", format!("{from:?} send_data of message {i} ({} bytes) did not return within {DC_TIMEOUT:?}", m.len()))),
+        }
+    }
+    Ok(())
+}
+
+/// Everything the peer submitted on the (ordered, reliable) channel arrives intact and in order.
+async fn dc_read_all(p: Point, from: Side, dc: Arc<DataChannel>, who: &'static str) -> Result<(), Fail> {
+    let deadline = tokio::time::Instant::now() + DC_TIMEOUT;
+    let mut next = 0usize;
+    while next < DC_SIZES.len() {
+        match tokio::time::timeout_at(deadline, dc.recv()).await {
+            Err(_) => {
+                return Err(Fail::stall(
+                    "dc-messages-missing",
+                    format!("{who}: only {next} of {} data-channel messages from {from:?} arrived within {DC_TIMEOUT:?}", DC_SIZES.len()),
+                ));
+            }
+            Ok(None) => return Err(Fail::new("dc-closed", format!("{who}: data channel event stream ended after {next} messages"))),
+            Ok(Some(DataChannelEvent::Open)) => continue,
+            Ok(Some(DataChannelEvent::Close)) => {
+                return Err(Fail::new("dc-closed", format!("{who}: data channel closed after {next} of {} messages", DC_SIZES.len())));
+            }
+            Ok(Some(DataChannelEvent::Message(b))) => {
+                let want = dc_message(&p, from, next);
+                if b.as_ref() != want.as_slice() {
+                    // a later message of the same sender: order violated; anything else: corrupted
+                    let later = (next + 1..DC_SIZES.len()).find(|k| dc_message(&p, from, *k).as_slice() == b.as_ref());
+                    let sig = if later.is_some() { "dc-out-of-order" } else { "dc-payload-mismatch" };
+                    return Err(Fail::new(
+                        sig,
+                        format!("{who}: message {next} from {from:?}: got {} bytes {:?}.. (matches later message {:?}), expected {} bytes", b.len(), String::from_utf8_lossy(&b[..b.len().min(40)]), later, want.len()),
+                    ));
+                }
+                next += 1;
+            }
+        }
+    }
+    Ok(())
+}
+
+/// The answerer learns the channel in-band; the offerer's channel opens (DCEP ACK). Returns the answerer's handle.
+async fn dc_setup(answerer: &PeerConnection, dc_off: &DataChannel) -> Result<Arc<DataChannel>, Fail> {
     let deadline = tokio::time::Instant::now() + DC_TIMEOUT;
     let dc_ans = loop {
         match tokio::time::timeout_at(deadline, answerer.recv()).await {
             Err(_) => {
-                return Err(Fail::timing(
+                return Err(Fail::stall(
                     "dc-not-announced",
-                    format!(
-                        "answerer: no PeerConnectionEvent::DataChannel within {DC_TIMEOUT:?} after Connected; offerer channel state {} ; offerer sctp: {:?} ; answerer sctp: {:?}",
-                        dc_off.state.load(Ordering::SeqCst),
-                        offerer.sctp_diagnostic_info(),
-                        answerer.sctp_diagnostic_info()
-                    ),
+                    format!("answerer: no PeerConnectionEvent::DataChannel within {DC_TIMEOUT:?} after Connected; offerer channel state {}", dc_off.state.load(Ordering::SeqCst)),
                 ));
             }
             Ok(None) => return Err(Fail::new("dc-event-stream-ended", "answerer: PeerConnection::recv() returned None")),
@@ -742,55 +961,12 @@ async fn dc_exchange(p: Point, offerer: PeerConnection, answerer: PeerConnection
     if dc_ans.label != "c10" {
         return Err(Fail::new("dc-label-mismatch", format!("announced channel has label {:?}", dc_ans.label)));
     }
-    let off_side = p.offerer;
-    let ans_side = p.offerer.other();
-    let m_off = dc_message(&p, off_side);
-    let m_ans = dc_message(&p, ans_side);
-    // answerer -> offerer right away (the channel was announced, hence open on this side)
-    match tokio::time::timeout(DC_TIMEOUT, answerer.send_data(dc_ans.id, &m_ans)).await {
-        Ok(Ok(())) => {}
-        Ok(Err(e)) => return Err(Fail::new("dc-send-error", format!("answerer send_data: {e}"))),
-        Err(_) => return Err(Fail::timing("dc-send-timeout", "answerer send_data did not return")),
+    // nothing has been sent to the offerer yet, so the first event on its channel is Open
+    match tokio::time::timeout_at(deadline, dc_off.recv()).await {
+        Err(_) => Err(Fail::stall("dc-not-open", format!("offerer: channel did not open within {DC_TIMEOUT:?} after Connected"))),
+        Ok(Some(DataChannelEvent::Open)) => Ok(dc_ans),
+        Ok(other) => Err(Fail::new("dc-unexpected-first-event", format!("offerer: first event on the channel is {other:?}, expected Open"))),
     }
-    // offerer -> answerer once its channel is open: the first event on the offerer's channel is Open (or already the
-    // peer's message, which also proves it is open)
-    let first = {
-        let deadline = tokio::time::Instant::now() + DC_TIMEOUT;
-        match tokio::time::timeout_at(deadline, dc_off.recv()).await {
-            Err(_) => {
-                return Err(Fail::timing(
-                    "dc-not-open",
-                    format!("offerer: channel did not open within {DC_TIMEOUT:?} after Connected"),
-                ));
-            }
-            Ok(None) => return Err(Fail::new("dc-closed", "offerer: data channel event stream ended")),
-            Ok(Some(ev)) => ev,
-        }
-    };
-    match tokio::time::timeout(DC_TIMEOUT, offerer.send_data(dc_off.id, &m_off)).await {
-        Ok(Ok(())) => {}
-        Ok(Err(e)) => return Err(Fail::new("dc-send-error", format!("offerer send_data: {e}"))),
-        Err(_) => return Err(Fail::timing("dc-send-timeout", "offerer send_data did not return")),
-    }
-    let got_at_off = match first {
-        DataChannelEvent::Message(b) => b,
-        DataChannelEvent::Close => return Err(Fail::new("dc-closed", "offerer: channel closed right after connecting")),
-        DataChannelEvent::Open => dc_wait_message(&dc_off, "offerer").await?,
-    };
-    let got_at_ans = dc_wait_message(&dc_ans, "answerer").await?;
-    if got_at_off.as_ref() != m_ans.as_slice() {
-        return Err(Fail::new(
-            "dc-payload-mismatch",
-            format!("offerer received {} bytes {:?}.., expected the answerer's {} byte message", got_at_off.len(), String::from_utf8_lossy(&got_at_off[..got_at_off.len().min(80)]), m_ans.len()),
-        ));
-    }
-    if got_at_ans.as_ref() != m_off.as_slice() {
-        return Err(Fail::new(
-            "dc-payload-mismatch",
-            format!("answerer received {} bytes {:?}.., expected the offerer's {} byte message", got_at_ans.len(), String::from_utf8_lossy(&got_at_ans[..got_at_ans.len().min(80)]), m_off.len()),
-        ));
-    }
-    Ok(())
 }
 
 fn receiver_track(pc: &PeerConnection, kind: MediaKind, who: &str) -> Result<Arc<SampleStreamTrack>, Fail> {
@@ -812,10 +988,9 @@ async fn run_point_inner(p: Point, rec: &CaseRec) -> Check {
     if let Some(c) = p.violated_constraint() {
         return Err(Fail::new("harness:point-outside-lattice", format!("{}: {c}", p.tag())));
     }
-    let (port_a, port_b) = if p.ice == IceOpt::UdpMux { (Some(alloc_port()), Some(alloc_port())) } else { (None, None) };
-    let a = build_end(&p, Side::A, port_a)?;
+    let a = build_end(&p, Side::A)?;
     let closer = Closer(vec![a.pc.clone()]);
-    let b = build_end(&p, Side::B, port_b)?;
+    let b = build_end(&p, Side::B)?;
     let _closer = {
         let mut c = closer;
         c.0.push(b.pc.clone());
@@ -952,50 +1127,104 @@ async fn run_point_inner(p: Point, rec: &CaseRec) -> Check {
         }
     }
 
-    // exchange
-    let mut flows = Vec::new();
+    // which transport carries the media: on a TCP-selected pair nothing may be lost
+    let on_tcp = |pc: &PeerConnection| {
+        p.mode == Mode::WebRtc
+            && pc.ice_transport().get_selected_pair().is_some_and(|pr| pr.local.transport.eq_ignore_ascii_case("tcp"))
+    };
+    let path_tcp = on_tcp(&off.pc) && on_tcp(&ans.pc);
+    rec.label(if path_tcp { "path=tcp" } else { "path=udp" });
+    if !(p.tr_off.has_udp() && p.tr_ans.has_udp()) && !path_tcp {
+        return Err(Fail::new(
+            "selected-pair-not-tcp",
+            format!("{}: the endpoints share only TCP, but the selected pairs are offerer {:?} / answerer {:?}", p.tag(), off.pc.ice_transport().get_selected_pair(), ans.pc.ice_transport().get_selected_pair()),
+        ));
+    }
+
+    // data channel: announced to the answerer, open at the offerer, before the concurrent phase starts
+    let dcs = match &dc_off {
+        Some(dc) => {
+            let dc_ans = dc_setup(&ans.pc, dc).await.map_err(|mut f| {
+                f.msg = format!("{}: {}\n{sdp_ctx}", p.tag(), f.msg);
+                f
+            })?;
+            Some((dc.clone(), dc_ans))
+        }
+        None => None,
+    };
+
+    // concurrent exchange: every sender in its own task, all started together, both directions at once - audio and
+    // video bursts without pacing while data-channel messages of mixed sizes are written from a third task
+    let (done_tx, done_rx) = tokio::sync::watch::channel(false);
+    let mut readers = Vec::new();
+    let mut senders = Vec::new();
     for (from_end, to_end, from_side) in [(&a, &b, Side::A), (&b, &a, Side::B)] {
         if let Some((src, _)) = &from_end.audio {
             let rt = receiver_track(&to_end.pc, MediaKind::Audio, &format!("{:?}", from_side.other()))?;
-            flows.push(tokio::spawn(rtp_flow(p, from_side, "audio", src.clone(), rt)));
+            readers.push(tokio::spawn(rtp_read(p, from_side, "audio", rt, path_tcp, done_rx.clone())));
+            senders.push(tokio::spawn(rtp_send(p, from_side, "audio", src.clone())));
         }
         if let Some((src, _)) = &from_end.video {
             let rt = receiver_track(&to_end.pc, MediaKind::Video, &format!("{:?}", from_side.other()))?;
-            flows.push(tokio::spawn(rtp_flow(p, from_side, "video", src.clone(), rt)));
+            readers.push(tokio::spawn(rtp_read(p, from_side, "video", rt, path_tcp, done_rx.clone())));
+            senders.push(tokio::spawn(rtp_send(p, from_side, "video", src.clone())));
         }
     }
     let dc_t0 = std::time::Instant::now();
-    let dc_task = dc_off.map(|dc| tokio::spawn(dc_exchange(p, off.pc.clone(), ans.pc.clone(), dc)));
+    let mut dc_tasks = Vec::new();
+    if let Some((dc_o, dc_a)) = &dcs {
+        let (off_side, ans_side) = (p.offerer, p.offerer.other());
+        dc_tasks.push(tokio::spawn(dc_read_all(p, ans_side, dc_o.clone(), "offerer")));
+        dc_tasks.push(tokio::spawn(dc_read_all(p, off_side, dc_a.clone(), "answerer")));
+        dc_tasks.push(tokio::spawn(dc_send_all(p, off_side, off.pc.clone(), dc_o.id)));
+        dc_tasks.push(tokio::spawn(dc_send_all(p, ans_side, ans.pc.clone(), dc_a.id)));
+    }
 
     let mut fails: Vec<Fail> = Vec::new();
-    let mut late = false;
-    for f in flows {
-        match f.await {
+    for t in senders {
+        match t.await {
+            Ok(Ok(())) => {}
+            Ok(Err(e)) => fails.push(e),
+            Err(e) => fails.push(Fail::new("harness-task-panic", format!("sender task: {e}"))),
+        }
+    }
+    let _ = done_tx.send(true);
+    let mut udp_loss = false;
+    let loss_label = if path_tcp { "rtp-burst-loss-on-tcp(receiver-queue,tolerated)" } else { "rtp-burst-loss-on-udp(tolerated)" };
+    let mut reordered = false;
+    for t in readers {
+        match t.await {
             Ok(Ok(obs)) => {
-                if obs.first_index.unwrap_or(0) > 0 {
-                    late = true;
+                udp_loss |= obs.distinct < RTP_TOTAL;
+                reordered |= obs.out_of_order > 0;
+                if obs.duplicates > 0 {
+                    rec.label("rtp-duplicates-seen");
                 }
             }
             Ok(Err(e)) => fails.push(e),
-            Err(e) => fails.push(Fail::new("harness-task-panic", format!("flow task: {e}"))),
+            Err(e) => fails.push(Fail::new("harness-task-panic", format!("reader task: {e}"))),
         }
     }
-    if let Some(t) = dc_task {
+    for t in dc_tasks {
         match t.await {
-            Ok(Ok(())) => {
-                let ms = dc_t0.elapsed().as_millis();
-                if ms > 2500 {
-                    rec.label("dc-exchange>2.5s(sctp-retransmission)");
-                }
-            }
+            Ok(Ok(())) => {}
             Ok(Err(e)) => fails.push(e),
             Err(e) => fails.push(Fail::new("harness-task-panic", format!("dc task: {e}"))),
         }
     }
-    // a definite failure is reported in preference to a time-bounded one; otherwise flow order (A->B audio, video, B->A ...)
+    if dcs.is_some() && dc_t0.elapsed().as_millis() > 2500 {
+        rec.label("dc-exchange>2.5s(sctp-retransmission)");
+    }
+    if udp_loss {
+        rec.label(loss_label);
+    }
+    if reordered {
+        rec.label("rtp-reordered");
+    }
+    // a definite failure is reported in preference to a stall / time-bounded one; otherwise task order
     let first_fail = {
         let all = fails.iter().map(|f| format!("[{}] {}", f.signature, f.msg)).collect::<Vec<_>>().join("\n");
-        let pick = fails.iter().position(|f| !f.timing).unwrap_or(0);
+        let pick = fails.iter().position(|f| !f.timing && !f.stall).unwrap_or(0);
         if fails.is_empty() {
             None
         } else {
@@ -1004,9 +1233,6 @@ async fn run_point_inner(p: Point, rec: &CaseRec) -> Check {
             Some(f)
         }
     };
-    if late {
-        rec.label("rtp-first-received-is-not-first-sent");
-    }
     // A media flow that never arrives in a direct (non-ICE) mode: look at the wiring. Each section's SDP advertises the
     // port of its own socket; `RtpSender::transport()` is "the per-media transport, set on negotiation" and the
     // transceiver's receiver is attached to the same transport. A transceiver wired to another section's socket can
@@ -1121,6 +1347,7 @@ fn label_point(p: &Point, rec: &CaseRec) {
     rec.label(format!("bundle={:?}", p.bundle));
     rec.label(format!("mux={:?}", p.mux));
     rec.label(format!("ice={:?}", p.ice));
+    rec.label(format!("tr={:?}/{:?}", p.tr_off, p.tr_ans));
     rec.label(format!("latch={:?}", p.latch));
     rec.label(format!("compat={:?}", p.compat));
     rec.label(format!("offerer={:?}", p.offerer));
@@ -1237,20 +1464,21 @@ pub fn run(ctx: &mut Ctx) {
     ctx.level = "exploration";
     let all = all_points();
     ctx.rule = format!(
-        "lattice mode{{WebRtc,Srtp,Rtp}} x media{{audio,audio+video,dc,dc+audio,dc+audio+video}} x bundle{{offered,not}} x rtcp-mux{{Require,Negotiate}} x ice{{plain,ice-lite on A,ICE-TCP enabled,udp-mux}} x latching{{off,on/probation 0,on/probation 3}} x compat{{Standard,LegacySip}} x offerer{{A,B}}, pruned by the constraints rustrtc states itself (data channels only in WebRtc mode; ICE options only where ICE runs; latching only in Rtp mode; BUNDLE offered iff Standard and >1 section; udp-mux with a port) to {} points. Quick: a pairwise-covering array over the pruned lattice (seeded tie-breaks), 4 passes over the whole pruned product (minus the points of a deterministic known finding, which are counted under excluded_known) and 55 seeded random valid points; thorough: every point of the pruned product, then 39 more passes and 600 seeded random valid points (repeats are wanted: the known races are probabilistic). Each point: two PeerConnections on 127.0.0.1 with the same settings except role, documented non-trickle offer/answer, both Connected, one data-channel message and RTP per media section in each direction compared by payload equality. Non-trivial = the point differs from the default configuration (WebRtc, audio, Require, plain ICE, no latching, Standard, A offers) in >= 1 coordinate; distinct by point.",
-        all.len()
+        "lattice mode{{WebRtc,Srtp,Rtp}} x media{{audio,audio+video,dc,dc+audio,dc+audio+video}} x bundle{{offered,not}} x rtcp-mux{{Require,Negotiate}} x ice option{{plain,ice-lite on A,udp-mux}} x offerer transports x answerer transports (each of {{UDP, UDP+TCP, TCP passive listener only, TCP active only}}) x latching{{off,on/probation 0,on/probation 3}} x compat{{Standard,LegacySip}} x offerer{{A,B}}, pruned by the constraints rustrtc states itself (data channels only in WebRtc mode; ICE options and ICE-TCP only where ICE runs; the two ends share a transport protocol; active-only TCP is for the offering side; udp-mux needs UDP host gathering and a port; latching only in Rtp mode; BUNDLE offered iff Standard and >1 section) to {} points. Quick: a covering array in which the (offerer transports, answerer transports) combination is one compound coordinate, so every transport combination meets every value of every other coordinate and all other value pairs meet too (seeded tie-breaks), plus 700 seeded random valid points (mode weighted 7:1:2 like the lattice); thorough: every point of the pruned product, 5 more passes and 1500 seeded random valid points. Each point: two PeerConnections on 127.0.0.1 with the same settings except role and per-side transports, documented non-trickle offer/answer, both Connected, then a concurrent exchange on a multi-thread runtime: per direction and media section an unpaced burst of {} RTP packets plus {} paced ones from its own task, and (if dc) 16 data-channel messages of 1..16000 bytes from a third task, both directions at once. Non-trivial = the point differs from the default configuration in >= 1 coordinate; distinct by point.",
+        all.len(), BURST, TAIL
     );
     ctx.assumptions = vec![
-        "both endpoints run in one process on 127.0.0.1 (bind_ip set); with udp-mux each endpoint has its own mux port (two endpoints sharing one mux socket and talking to each other is not a deployment the option describes)".into(),
-        "wait_for_connected() has no deadline of its own: 'within the configured timeouts' is checked as within 12 s (stun_timeout 5 s / nomination_timeout 10 s defaults untouched); exchange clauses within 6 s; all time-bounded clauses are subject to the 3x solo re-run rule".into(),
-        "RTP is unreliable by design: the sender repeats a packet every 20 ms until the peer's receiver track yields one; that packet must be byte-identical to the one sent with the index it carries (the class rtp-first-received-is-not-first-sent counts points where an earlier packet was lost)".into(),
-        "ice-lite 'on one side' is endpoint A; the data channel is created by the offerer and announced in-band (DCEP)".into(),
+        "both endpoints run in one process on 127.0.0.1 (bind_ip set); with udp-mux each endpoint has its own mux port; TCP listen ranges are 3 free ports per endpoint below the ephemeral range".into(),
+        "wait_for_connected() has no deadline of its own: 'within the configured timeouts' is checked as within 12 s (stun_timeout 5 s / nomination_timeout 10 s defaults untouched), subject to the 3x solo re-run rule".into(),
+        "data channel (ordered, reliable): every submitted message arrives intact and in order; missing messages after 12 s are a stall (counts when reproduced alone or seen in >= 3 cases)".into(),
+        "RTP: every received packet is bit-identical to the packet sent with the index it carries; at least one of the paced packets sent after the burst arrives (no dead direction); on a TCP-selected pair all of them arrive. Completeness of the unpaced burst is NOT demanded, not even on TCP: rustrtc's receiver drops by design when its 64-slot packet queue is full (peer_connection.rs RTP_RECEIVER_PACKET_CAPACITY, transports/rtp.rs try_send_dropping) - measured on the unchanged tree: up to half of an unpaced 300-packet burst on TCP".into(),
+        "ice-lite 'on one side' is endpoint A; the data channel is created by the offerer and announced in-band (DCEP); transports with only active TCP candidates are configured on the offerer only".into(),
         "complementary DTLS roles and identical SRTP keys are witnessed by the successful DTLS handshake and by SRTP-protected payloads arriving intact in both directions, not read from the endpoints".into(),
     ];
     ctx.set_extra("lattice_points_after_pruning", json!(all.len()));
 
     let rt = tokio::runtime::Builder::new_multi_thread().worker_threads(8).enable_all().build().unwrap();
-    let conc = 6;
+    let conc = 8;
 
     if std::env::var("C10_SURVEY").is_ok() {
         let pts: Vec<Point> = match std::env::var("C10_SURVEY").as_deref() {
@@ -1267,7 +1495,7 @@ pub fn run(ctx: &mut Ctx) {
         hits: Default::default(),
     });
     // seeded random valid points on top of the systematic part (repeats are wanted: the known races are probabilistic)
-    let extra = ctx.scale(55usize, 600usize);
+    let extra = ctx.scale(700usize, 1500usize);
     let randoms: Vec<Point> = ctx.draw("random-points", extra, &random_point()).into_iter().map(|t| t.current()).collect();
     let known_det = ctx.is_known(SRTP_NONBUNDLE_AV);
     let in_known_shape = |p: &Point| p.mode == Mode::Srtp && p.media == Media::AudioVideo && p.bundle == Bundle::NotOffered;
@@ -1287,7 +1515,7 @@ pub fn run(ctx: &mut Ctx) {
     let mut list: Vec<Point> = Vec::new();
     if ctx.thorough() {
         list.extend(all.iter().copied());
-        let passes = 39;
+        let passes = 5;
         for _ in 0..passes {
             list.extend(steer(all.clone(), &mut skipped));
         }
@@ -1303,11 +1531,7 @@ pub fn run(ctx: &mut Ctx) {
         let arr = pairwise(&all, &keys);
         ctx.set_extra("pairwise_array_size", json!(arr.len()));
         list.extend(steer(arr, &mut skipped));
-        // a point costs ~30 ms, so the quick tier can afford passes over the whole pruned product as well
-        for _ in 0..4 {
-            list.extend(steer(all.clone(), &mut skipped));
-        }
-        ctx.set_extra("full_product_passes", json!(4));
+        ctx.set_extra("full_product_passes", json!(0));
     }
     ctx.set_extra("systematic_points", json!(list.len()));
     ctx.set_extra("random_points", json!(randoms.len()));
@@ -1330,7 +1554,7 @@ mod tests {
     #[test]
     fn lattice_size_and_pairwise_cover() {
         let all = all_points();
-        assert_eq!(all.len(), 272);
+        assert_eq!(all.len(), 992);
         let arr = pairwise(&all, &[]);
         assert!(arr.len() < 80, "{}", arr.len());
     }
